@@ -306,3 +306,19 @@ reg(
     TECHNIQUE="controlled-scheduler interleaving exploration (preemption-bounded + randomized/PCT) with ownership, bound, termination and exception-whitelist monitors",
     REQUIRED_MONITORS={"quick": {"schedule": 1500, "termination": 1500, "results": 1500, "post_mortem_sweep": 1000, "stress_run": 4}, "thorough": {"schedule": 30000, "termination": 30000}},
 )
+
+reg(
+    "C17",
+    RULE="(i) every operation sequence up to length 5 (quick, 3 keys) / 6 (thorough, 4 keys) over get/set/delete per key + clear + len, maxsize in {0,1,2,3}, on the real RecentlyUsedContainer vs a sequential LRU model with dispose log; (ii) 7 concurrent container scenarios (2-3 threads x 1-3 operations) x maxsize {0,1,2} under the controlled scheduler: all schedules with <= 2 preemptions at line granularity inside the container methods (capped) + random schedules, histories checked for linearizability, exactly-once disposal, conservation, dispose-never-under-lock; (iii) 6 PoolManager scenarios x num_pools {1,2}: threads doing connection_from_url over 3 origins, full requests, streamed responses held across evictions, clear() and len(), same exploration; a case is the sequence or (scenario, schedule); non-trivial = length >= 3 / at least one preemption",
+    ASSUMPTIONS=COMMON_ASSUMPTIONS + [
+        "the container's lock is replaced through its public 'lock' instance attribute by a cooperative re-entrant lock (identical semantics), the pools' queue through QueueCls; preemption points are LINE events",
+        "same-key-same-pool under races is judged as: two different pool objects for one origin are only acceptable if the first one was evicted or cleared (recorded at the container's dispose callback) before the second was handed out",
+        "evicted pools are reclaimed by their weakref finalizer: sockets are swept after all references held by the scenario are dropped and gc.collect() has run",
+    ],
+    SHARDS={"quick": 8, "thorough": 16},
+    BUDGET={"quick": 60, "thorough": 480},
+    LEVEL_TEXT="Model-based runtime monitoring of the real LRU container (exhaustive short sequential histories vs a sequential model with dispose log) plus controlled-scheduler exploration of concurrent container and PoolManager histories with a linearizability checker, exactly-once disposal / conservation monitors, a 'dispose never under the lock' hook, the num_pools bound, the same-key-same-pool rule, in-flight responses across evictions and a socket sweep after references are dropped.",
+    LEVEL_NOTE="Trusts the 50-line LRU model, the brute-force linearizability search (histories <= 9 operations, node budget => inconclusive) and the scheduler.",
+    TECHNIQUE="reference-model comparison (sequential, exhaustive) + linearizability checking of scheduler-controlled concurrent histories + disposal/bound/leak monitors",
+    REQUIRED_MONITORS={"quick": {"sequential_history": 100000, "container_schedule": 500, "linearizability": 500, "manager_schedule": 200, "same_key_same_pool": 200, "inflight_and_sweep": 200}, "thorough": {"sequential_history": 10**6, "container_schedule": 10000, "manager_schedule": 5000}},
+)
